@@ -501,5 +501,7 @@ func init() {
 		c17Conds(s, e, mf, "Unmarshaler.generateMap", "genMapCond")
 		c17Conds(s, e, cf, "toLowerCaseKeyMap", "lowerMapCond")
 		c17Conds(s, e, cf, "LoadFromJsonBytes", "loadJsonCond")
+		c17Detail(s, e, cf, "getTagName", "cGetTagName")
+		c17Conds(s, e, cf, "getTagName", "tagNameCond")
 	})
 }
